@@ -34,12 +34,12 @@ pub fn model(c1c3c2: bool) -> Sm2Model {
 
 impl EncCase {
     pub fn msg(&self) -> Vec<u8> {
-        let mut m = match self.msg_class % 4 {
+        let mut m = match (self.msg_class & 0x0f) % 4 {
             1 => vec![0u8; self.msg_len],
             2 => vec![0xFF; self.msg_len],
             _ => expand_bytes(self.msg_seed, self.msg_len),
         };
-        if self.msg_class % 4 == 3 {
+        if (self.msg_class & 0x0f) % 4 == 3 {
             let z = (self.msg_seed % 4 + 1) as usize;
             for b in m.iter_mut().take(z) {
                 *b = 0;
@@ -54,7 +54,9 @@ fn check_enc(c: &EncCase) -> CaseResult {
     let d = from_be(&c.d);
     let msg = c.msg();
     let pk_ref = r2::g_mul(&d);
-    let pk = lib_pk(&pk_ref).map_err(|e| Fail { key: "entry=Sm2PublicKey::new input=valid-point outcome=rejected".into(), detail: e })?;
+    let mut pk = lib_pk(&pk_ref).map_err(|e| Fail { key: "entry=Sm2PublicKey::new input=valid-point outcome=rejected".into(), detail: e })?;
+    // high nibble of msg_class: the Jacobian representation in which the key object holds the recipient's point (not a different key)
+    pk.point = point_in_rep(&pk_ref, Some(&d), c.msg_class >> 4, c.msg_seed);
     let sk = lib_sk(&d).map_err(|e| Fail { key: "entry=Sm2PrivateKey::new input=d-in-[1,n-2] outcome=rejected".into(), detail: e })?;
     let cfg = format!("{}/{}", if c.compressed { "compressed" } else { "uncompressed" }, if c.c1c3c2 { "C1C3C2" } else { "C1C2C3" });
     let ct = match &c.k {
@@ -161,7 +163,7 @@ fn enc_case(fixed_k: bool, maxlen: usize) -> impl Strategy<Value = EncCase> {
         gen::secret_scalar(&(&n - 2u32)),
         prop_oneof![3 => 1..=130usize, 1 => (1..=9usize).prop_map(|b| b * 32), 1 => 1..=maxlen],
         any::<u64>(),
-        prop_oneof![5 => Just(0u8), 1 => Just(1u8), 1 => Just(2u8), 1 => Just(3u8)],
+        (prop_oneof![5 => Just(0u8), 1 => Just(1u8), 1 => Just(2u8), 1 => Just(3u8)], 0..6u8).prop_map(|(c, rep)| c | rep << 4),
         any::<bool>(),
         any::<bool>(),
         gen::secret_scalar(&(&n - 1u32)),
@@ -172,7 +174,7 @@ fn enc_case(fixed_k: bool, maxlen: usize) -> impl Strategy<Value = EncCase> {
 pub fn run(ctx: &Ctx) {
     let n = r2::params().n.clone();
     ctx.set_rule(
-        "cases are (d, message length/seed/class, compressed?, order, nonce k): every message length 1..=300 (klen mod 32 = 0 nine times) x 4 configurations with k injected through the RNG hook; \
+        "cases are (d, message length/seed/class, Jacobian representation of the recipient's point in the key object, compressed?, order, nonce k): every message length 1..=300 (klen mod 32 = 0 nine times) x 4 configurations with k injected through the RNG hook; \
          proptest cases with lengths to 2^12 (thorough 2^16), all-zero / all-0xFF / leading-zero messages, edge keys; the library's own RNG; reference-encrypted and OpenSSL-encrypted ciphertexts; conforming ciphertexts whose C1 is a boundary point of the curve; the \
          GM/T 0003.5 Annex example both ways; KDF for every klen 1..=300 and random klen/|Z|. Oracles: exact equality with the reference encryptor for the same k, independent decryption of every library \
          ciphertext (C1 on curve, C2 = M xor KDF, C3 = SM3(x2||M||y2)), round trip. Non-trivial: compressed C1, or klen mod 32 = 0, or |M| > 117.",
@@ -190,7 +192,7 @@ pub fn run(ctx: &Ctx) {
                     d: gen::hex32(&(from_be(&expand_bytes(seed ^ 0xd0 ^ key_sel, 32)) % (&n - 2u32) + 1u32)),
                     msg_len: len,
                     msg_seed: s,
-                    msg_class: if len % 11 == 0 { 1 } else { 0 },
+                    msg_class: (if len % 11 == 0 { 1 } else { 0 }) | ((len % 6) as u8) << 4,
                     compressed: cfg & 1 == 1,
                     c1c3c2: cfg & 2 == 2,
                     k: Some(gen::hex32(&(from_be(&expand_bytes(s ^ 0x4b4b, 32)) % (&n - 1u32) + 1u32))),
@@ -204,6 +206,20 @@ pub fn run(ctx: &Ctx) {
     ctx.generated("generated_fixed_k", "proptest cases with injected nonce: exact ciphertext, independent decryption, round trip", ctx.tier.pick(1_000, 30_000), move || enc_case(true, maxlen), check_enc);
     ctx.generated("generated_library_rng", "proptest cases, nonce from the library's RNG: independent decryption, round trip", ctx.tier.pick(1_500, 30_000), move || enc_case(false, maxlen), check_enc);
     ctx.generated("reference_encrypted", "ciphertexts made by the reference encryptor decrypt under the library", ctx.tier.pick(1_000, 20_000), move || enc_case(true, 600), check_ref_enc);
+
+    ctx.exhaustive("keys_and_nonces_with_zero_limbs", "d (resp. k) with an all-zero 64-bit limb below a non-zero limb and zero runs across limb boundaries: exact ciphertext, independent decryption, round trip (decryption multiplies C1 by d, encryption multiplies G and P by k)", move || {
+        let n = &r2::params().n;
+        let mut v = Vec::new();
+        for (i, s) in gen::zero_limb_scalars().into_iter().enumerate() {
+            if &s >= &(n - 2u32) || s.bits() == 0 {
+                continue;
+            }
+            let other = gen::hex32(&(from_be(&expand_bytes(i as u64 ^ 0x2e4, 32)) % (n - 2u32) + 1u32));
+            v.push(EncCase { d: gen::hex32(&s), msg_len: 1 + i % 60, msg_seed: i as u64, msg_class: ((i % 6) as u8) << 4, compressed: i & 1 == 1, c1c3c2: i & 2 == 2, k: Some(other.clone()) });
+            v.push(EncCase { d: other, msg_len: 1 + i % 45, msg_seed: i as u64 ^ 0xff, msg_class: ((i % 6) as u8) << 4, compressed: i & 2 == 2, c1c3c2: i & 1 == 1, k: Some(gen::hex32(&s)) });
+        }
+        v
+    }, check_enc);
 
     ctx.cold("cold_start_encrypt", "encrypt (nonce injected) as the first library operation of a fresh process, four configurations", move || {
         (0..4u8).map(|cfg| EncCase { d: gen::hex32(&(from_be(&expand_bytes(seed ^ 0xc05d ^ cfg as u64, 32)) % (&r2::params().n - 2u32) + 1u32)), msg_len: 20 + cfg as usize * 17, msg_seed: cfg as u64, msg_class: 0, compressed: cfg & 1 == 1, c1c3c2: cfg & 2 == 2,
